@@ -108,8 +108,11 @@ def text_correspondence(ctx):
 def run(ctx):
     ctx.search = search
     ctx.trusted += ["tables emitter translator/tables.go and verif hook verif_export_c03.go (shared with C03)",
-                    "column positions of the protected fields per record type in harness/cmd/c04 (checked against the reader by the oracle itself: a wrong position would tamper an unprotected column and be accepted)"]
-    ctx.assumptions += ["theorems are about the arithmetic skeleton (Model/Arith.v, same model as C03) and, for truncation, about whole record lines (Codec/FileStruct.v); cuts inside a line and the parse of a tampered line are covered by the exhaustive oracle, not by a theorem (C04_truncation_*_partial)",
+                    "column positions of the protected fields per record type in harness/cmd/c04 and cmd/c04text (checked against the reader by the oracle itself: a wrong position would tamper an unprotected column and be accepted); the model's own table (Model/TamperText.v protected_columns) is not trusted: pcol_ok by reflection over Gen/Layouts.v",
+                    "extraction of text_verdict (ocaml/c04text) and the skeleton encoder of harness/internal/arith"]
+    ctx.assumptions += ["theorems are about the arithmetic skeleton (Model/Arith.v, same model as C03) of the file re-parsed through the regenerated layouts (Model/TamperText.v skel), the framing model of C01 (Codec/Framing.v) and the structural reader (Codec/FileStruct.v)",
+                        "byte-offset truncation theorem: record lines of 94 ASCII characters (C04_truncation_bytes_partial); a cut inside a multi-byte character is covered by the exhaustive oracle only",
+                        "numeric protected columns: written value below max_int64 (strconv.Atoi clamps on overflow; relevant for the 20-digit ADV totals only)",
                         "entry amount theorem for IAT/ADV batches and the routing number theorem carry the side conditions of C03 (codes_regular, 8-digit routing numbers)",
                         "the file control's block count is not protected by the library and is excluded (as in the property text)"]
     if not c03.build(ctx, PROP_FILES, OBLIG_FILES):
